@@ -284,6 +284,18 @@ func confAnalyse(fns []*ssa.Function, inScope func(*ssa.Function) bool, isShared
 					if taint[x.Addr] {
 						add(ins, "store", fmt.Sprintf("writes through %s, which may point into package-level (shared) storage", describeValue(x.Addr)))
 					}
+					// handing out shared storage: a reference into package-level memory stored in a field of a
+					// type the user's code receives (exported struct types of the generated files, e.g. Error):
+					// whoever gets the value can write the shared table through it
+					if taint[x.Val] && canCarryRef(x.Val.Type()) {
+						if fa, ok := x.Addr.(*ssa.FieldAddr); ok {
+							if nt, ok := deref(fa.X.Type()).(*types.Named); ok && nt.Obj().Exported() && nt.Obj().Pkg() != nil && nt.Obj().Pkg().Path() == "tmpl" {
+								if st, ok := nt.Underlying().(*types.Struct); ok {
+									add(ins, "hands-out", fmt.Sprintf("stores %s, a reference into package-level storage, in field %s of %s, which is handed to user code: an action that modifies it (filters, sorts, appends) writes the table shared by every instance", describeValue(x.Val), st.Field(fa.Field).Name(), nt.Obj().Name()))
+								}
+							}
+						}
+					}
 				case *ssa.MapUpdate:
 					if taint[x.Map] {
 						add(ins, "mapupdate", fmt.Sprintf("updates map %s, which is (derived from) a package-level variable", describeValue(x.Map)))
